@@ -5,7 +5,13 @@ use crate::core::{Erased, Scenario};
 use crate::engines;
 
 fn part(sc: Box<dyn Scenario>, quick: u64, thorough: u64, panic_prop: &'static str, cap: u64) -> Part {
-    Part { scenario: sc, quick, thorough, panic_prop, case_cap_s: cap }
+    Part { scenario: sc, quick, thorough, panic_prop, case_cap_s: cap, hang_window_s: 0 }
+}
+
+/// C13 promises a bounded number of visited paint nodes per paint: a paint that is still running alone after
+/// ten times the cap is a violation, however it ends.
+fn paint_part(quick: u64, thorough: u64) -> Part {
+    Part { hang_window_s: 200, ..part(Box::new(Erased(engines::paintmon::PaintMonitor)), quick, thorough, "C13", 20) }
 }
 
 pub fn check(property: &str) -> Option<CheckDef> {
@@ -91,7 +97,7 @@ pub fn check(property: &str) -> Option<CheckDef> {
         "C13" => Some(CheckDef {
             property: "C13",
             level: "exploration",
-            parts: vec![part(Box::new(Erased(engines::paintmon::PaintMonitor)), 3_000_000, 60_000_000, "C13", 20)],
+            parts: vec![paint_part(3_000_000, 60_000_000)],
             assumptions: vec![
                 "paint graphs explored are those reachable by corrupting the COLR tables of the corpus colour fonts (misdirected offset slots, paints overwritten with PaintColrGlyph, bit flips, truncation); hand-built exponential DAGs are out of scope",
                 "a traversal that never ends shows up as a worker killed by the per-case wall-clock cap and is confirmed alone with a 10x cap before being reported",
@@ -121,7 +127,7 @@ pub fn check(property: &str) -> Option<CheckDef> {
             parts: {
                 let mut v = c01_parts(2);
                 v.extend(c02_parts(2));
-                v.push(part(Box::new(Erased(engines::paintmon::PaintMonitor)), 500_000, 10_000_000, "C13", 20));
+                v.push(paint_part(500_000, 10_000_000));
                 // integer sets and the sparse-bit-set codec are what the IFT client decodes patch maps with
                 v.push(part(Box::new(Erased(engines::histmodels::SparseBitSetCodec)), 12_000, 250_000, "C14", 20));
                 v.push(part(Box::new(Erased(engines::histmodels::IntSetHistory)), 40_000, 800_000, "C14", 20));
